@@ -95,11 +95,11 @@ def obligations(tier, ctx):
             obs.append(Ob(name=f"big_f{form}_p{pat}", params=[("k", "int"), ("idsel", "int"), ("typed", "bool")], pre=[f"0 <= k < {nsz}", "0 <= idsel <= 2"] + (["idsel == 1", "typed"] if tier == "quick" else []),
                           call=f"H.post_big(k, {pat}, {form}, idsel, typed)", backend="P", timeout=900,
                           family="(d) size: answers carrying a string of c-1, c, c+1 characters (c: integer constants of the source and environment sizes)"))
-    clim = 110 if tier == "quick" else 1100
+    clim = 110 if tier == "quick" else 410
     nc = len(consts.size_cases(clim))
     obs.append(Ob(name="many_events", params=[("k", "int"), ("idsel", "int")], pre=[f"0 <= k < {nc}", ("idsel == 1" if tier == "quick" else "0 <= idsel <= 2")], call=f"H.post_many(k, idsel, {clim})", backend="P", timeout=900,
                   family="(d) count: SSE body with c-1, c, c+1 notifications before the response"))
-    nlim = 62 if tier == "quick" else 1100
+    nlim = 62 if tier == "quick" else 210
     nn = len(consts.size_cases(nlim))
     obs.append(Ob(name="nth_post", params=[("k", "int"), ("idsel", "int")], pre=[f"0 <= k < {nn}", ("idsel == 1" if tier == "quick" else "0 <= idsel <= 2")], call=f"H.posts_nth(k, idsel, {nlim})", backend="P", timeout=900,
                   family="(d) count: the (n+1)-th POST on one transport"))
